@@ -19,7 +19,6 @@ def parseDamage : String → Option Damage
   | "manualBadParam" => some .manualBadParam | "manualTwice" => some .manualTwice | "formatFail" => some .formatFail
   | "restParseFail" => some .restParseFail | "manualUnnamed" => some .manualUnnamed | "manualNoBody" => some .manualNoBody
   | "valueRecv" => some .valueRecv | "setterIface" => some .setterIface | "univEmbed" => some .univEmbed
-  | "cleanNoNewline" => some .cleanNoNewline
   | _ => none
 
 def c18yn (b : Bool) : String := if b then "yes" else "no"
